@@ -1577,12 +1577,14 @@ def oracle_c11(ctx):
                 res.violation('table integer %s legacy=%s' % (pyrepr(n), legacy), {'fn': 'c11_case', 'args': pyrepr((n, legacy, 'explicit'))}, bad[0], bad[1])
     vals = list(g.int_bounds) + (list(range(-70000, 70001)) if ctx.thorough else list(range(-700, 701)) + list(range(32000, 33000, 7)) + list(range(65000, 66000, 7)))
     vals += [g.integer() for _ in range(4000 if ctx.thorough else 600)]
+    # "all integers": far beyond 64 bits too, past the length at which the interpreter refuses decimal conversion
+    vals += [2 ** 64, -2 ** 64, 2 ** 200, 10 ** 4299, 10 ** 4300, -10 ** 4300, 10 ** 5000, -2 ** 20000]
     for i, n in enumerate(vals):
         for legacy in (False, True):
-            res.case('%d %s' % (n, legacy), trivial=False, tag='legacy' if legacy else 'full', sample={'n': n, 'legacy': legacy})
+            res.case('%s %s' % (pyrepr(n), legacy), trivial=False, tag='legacy' if legacy else 'full', sample={'n': pyrepr(n)[:40], 'legacy': legacy})
             bad = c11_case(n, legacy, 'default-arg' if i % 2 else 'explicit')
             if bad:
-                res.violation('table integer %d legacy=%s' % (n, legacy), {'fn': 'c11_case', 'args': pyrepr((n, legacy, 'default-arg' if i % 2 else 'explicit'))}, bad[0], bad[1])
+                res.violation('table integer %s legacy=%s' % (pyrepr(n)[:60], legacy), {'fn': 'c11_case', 'args': pyrepr((n, legacy, 'default-arg' if i % 2 else 'explicit'))}, bad[0], bad[1])
     for fname in ['short_int', 'short_uint', 'long_int', 'long_uint', 'long_long_int']:
         for n in g.int_bounds:
             res.case('%s %d' % (fname, n), tag='guard')
